@@ -229,6 +229,27 @@ def local_summary(facts, callterm, allow_writes=False):
     return subst(ret, m)
 
 
+def local_post_summary(facts, callterm, i):
+    """Value of the pointee of argument i after a call to a crate-local function, in terms of the call's arguments
+    (None when the callee is unknown, writes other parameters too, or its final value is not precise)."""
+    info = cinfo(callterm[1])
+    body = facts.by_uid.get(info['uid'])
+    if body is None or body.derived or body.arg_count != len(callterm[2]):
+        return None
+    it = interp(facts, body)
+    vals = set()
+    for bb, st in it.ret_store.items():
+        vals.add(st.get(('P', i + 1), ('param', i + 1)))
+    if len(vals) != 1:
+        return None
+    v = next(iter(vals))
+    from .terms import subterms
+    if any(x[0] in ('top', 'lv', 'phi') for x in subterms(v)):
+        return None
+    m = {('param', k + 1): a for k, a in enumerate(callterm[2])}
+    return subst(v, m)
+
+
 class Reach:
     """CFG reachability of one body under an assumption."""
 
